@@ -13,6 +13,7 @@
     rationals have no infinities; the float correspondence runs on finite inputs).
     No proofs in this file. *)
 From Coq Require Import List Arith Bool.
+Import ListNotations.
 From TsdateV Require Import lib.Num model.EP.
 
 Section Conj.
@@ -33,3 +34,21 @@ Section Conj.
     if Nat.eqb kd 1 && negb unph && eqb N age (zero N)
     then Some (conj_rootward pcav el, vzero, tt) else None.
 End Conj.
+
+(** list front-end used by the correspondence harness: [k] iterations of [iterate] from the
+    initial state, no blocks, no root regularisation, the edge order of [__init__];
+    result: [node_posterior] rows, or [None] when an assertion fires *)
+Definition run_conj (N : Num) (tiny infty : T N) (edges : list (nat * nat))
+    (constraints : list (T N * T N)) (elik : list (V2 N)) (maxshape minstep : T N) (k : nat)
+  : option (list (V2 N)) :=
+  let nE := length edges in
+  let nN := length constraints in
+  let ep := nthf 0%nat (map fst edges) in
+  let ec := nthf 0%nat (map snd edges) in
+  match iterate_n N tiny infty nE ep ec 0 (fun _ => 0%nat) (fun _ => 0%nat) nN
+          (nthf (zero N) (map fst constraints)) (nthf (zero N) (map snd constraints))
+          unit (conj_project N) [] (mk_edge_order nE []) (fun _ => vzero) (nthf vzero elik)
+          (fun _ => false) maxshape minstep 10 (zero N) false k (init, tt) with
+  | Some (st, _) => Some (map (post st) (seq 0 nN))
+  | None => None
+  end.
